@@ -89,6 +89,12 @@ func paramOfCell(a *ssa.Alloc) *ssa.Parameter {
 // anywhere in the function the value stays opaque (root = v, path = "").
 func (c *fnCtx) canon(v ssa.Value) (ssa.Value, string) {
 	root, path, ok := c.canonVal(v, 0)
+	if ok && len(path) == 0 {
+		// a whole-value load of a spilled parameter is that parameter
+		if _, isP := root.(*ssa.Parameter); isP && root != v {
+			return root, ""
+		}
+	}
 	if !ok || len(path) == 0 {
 		return v, ""
 	}
@@ -242,6 +248,10 @@ func (c *fnCtx) lin0(v ssa.Value) Lin {
 		}
 	case *ssa.ChangeType:
 		return c.lin(x.X)
+	case *ssa.UnOp:
+		if w := fwdLoad(x); w != nil {
+			return c.lin(w)
+		}
 	case *ssa.Call:
 		if b, ok := x.Call.Value.(*ssa.Builtin); ok && len(x.Call.Args) == 1 {
 			switch b.Name() {
@@ -325,6 +335,9 @@ func (c *fnCtx) seqLen0(v ssa.Value) Lin {
 	}
 	if k, ok := c.invariantLen(v); ok {
 		return Const(k)
+	}
+	if w := fwdLoad(v); w != nil {
+		return c.seqLen(w)
 	}
 	switch x := v.(type) {
 	case *ssa.Const:
@@ -895,4 +908,56 @@ func fieldVar(a Atom) *types.Var {
 		}
 	}
 	return last
+}
+
+// fwdLoad forwards a store to a load inside one basic block: v loads field F of a local cell
+// (FieldAddr on an Alloc), and walking backwards from the load the first instruction that can
+// write that field is a Store to the same FieldAddr expression. Calls in between are accepted
+// only when none of their operands is the cell itself or an address of the same field (other
+// fields' addresses cannot reach F).
+func fwdLoad(v ssa.Value) ssa.Value {
+	ld, ok := v.(*ssa.UnOp)
+	if !ok || ld.Op != token.MUL {
+		return nil
+	}
+	fa, ok := ld.X.(*ssa.FieldAddr)
+	if !ok {
+		return nil
+	}
+	cell, ok := fa.X.(*ssa.Alloc)
+	if !ok {
+		return nil
+	}
+	b := ld.Block()
+	pos := -1
+	for i, in := range b.Instrs {
+		if in == ssa.Instruction(ld) {
+			pos = i
+		}
+	}
+	sameField := func(a ssa.Value) bool {
+		x, ok := a.(*ssa.FieldAddr)
+		return ok && x.X == ssa.Value(cell) && x.Field == fa.Field
+	}
+	for i := pos - 1; i >= 0; i-- {
+		switch in := b.Instrs[i].(type) {
+		case *ssa.Store:
+			if sameField(in.Addr) {
+				return in.Val
+			}
+			if in.Addr == ssa.Value(cell) {
+				return nil // whole-cell store
+			}
+		case ssa.CallInstruction:
+			for _, op := range in.Operands(nil) {
+				if op == nil || *op == nil {
+					continue
+				}
+				if *op == ssa.Value(cell) || sameField(*op) {
+					return nil
+				}
+			}
+		}
+	}
+	return nil
 }
